@@ -118,19 +118,18 @@ def loop_spec(w, first_eval):
         return z3.And(ev == first_eval + idx, n == first_eval + idx, conv == z3.Bool("conv0"))
 
     vars_ = {"scf.state": havoc_scf, "costs": havoc_costs}
-    for nm in ("g", "d", "g_old", "d_old", "W_tmp", "linmin", "cg", "norm_g", "c", "gt", "beta"):
-        vars_[nm] = havoc_val(nm)
-    return LoopSpec(vars_, inv)
+    # every other local the loop body assigns is havocked by the engine (independent of the names the code uses for its temporaries)
+    return LoopSpec(vars_, inv, havoc_assigned=True)
 
 
 MINIMISERS = {
     # name: (function, first evaluation before the loop, loop header, kwargs)
-    "sd": ("sd", 0, ("for", "range(Nit)", "i"), {}),
-    "pclm": ("pclm", 0, ("for", "range(Nit)", "i"), {}),
-    "lm": ("lm", 0, ("for", "range(Nit)", "i"), {}),
-    "pccg": ("pccg", 1, ("for", "range(1, Nit)", "i"), {}),
-    "cg": ("cg", 1, ("for", "range(1, Nit)", "i"), {}),
-    "auto": ("auto", 1, ("for", "range(1, Nit)", "i"), {}),
+    "sd": ("sd", 0, ("for", "range(Nit)", "*"), {}),
+    "pclm": ("pclm", 0, ("for", "range(Nit)", "*"), {}),
+    "lm": ("lm", 0, ("for", "range(Nit)", "*"), {}),
+    "pccg": ("pccg", 1, ("for", "range(1, Nit)", "*"), {}),
+    "cg": ("cg", 1, ("for", "range(1, Nit)", "*"), {}),
+    "auto": ("auto", 1, ("for", "range(1, Nit)", "*"), {}),
 }
 
 
